@@ -289,6 +289,8 @@ func (r *resolver) applyDeviation(y *Module, d *Deviation) error {
 		case *Notification:
 			notifs := target.Parent().(HasNotifications).Notifications()
 			delete(notifs, target.Ident())
+		case *ChoiceCase:
+			delete(target.Parent().(*Choice).cases, target.Ident())
 		default:
 			hasDDefs := target.Parent().(HasDataDefinitions)
 			existing := hasDDefs.popDataDefinitions()
